@@ -106,7 +106,11 @@ func (e *Env) post(s *server.GCAServer, locked bool) J {
 
 // onHook converts the implementation's trace points into abstract events.
 func (e *Env) onHook(s *server.GCAServer, _ uint64, ev string, args []interface{}) {
-	e.live.Store(s)
+	if e.live.Swap(s) != s {
+		// the first event of a server object (its background threads run before NewGCAServer returns): the key it
+		// signs weekly records with is on disk by now and is what those signatures are judged against
+		e.LoadServerKey(e.Dir)
+	}
 	if e.Quiet[ev] {
 		e.notify(ev)
 		return
